@@ -31,7 +31,7 @@ class TealConditionalBlock(TealBlock):
     def replaceOutgoing(self, oldBlock: TealBlock, newBlock: TealBlock) -> None:
         if self.trueBlock is oldBlock:
             self.trueBlock = newBlock
-        elif self.falseBlock is oldBlock:
+        if self.falseBlock is oldBlock:
             self.falseBlock = newBlock
 
     def __repr__(self) -> str:
